@@ -11,7 +11,7 @@ Definition build_model (c : fcase) : Z :=
   match compile c with
   | CLowerErr => 1
   | CNoParse _ => 2
-  | COk _ b => if rtype_fn (params c) b then 0 else 3
+  | COk _ p => if rtype_prog p then 0 else 3
   end.
 
 (* rustc's deny-by-default lint `arithmetic_overflow`: a closed (literal-only) subexpression whose
@@ -31,9 +31,15 @@ Fixpoint ovf_expr (e : expr) : bool :=
   | EBin _ l r => ovf_expr l || ovf_expr r
   | _ => false
   end.
+Definition ovf_c (c : cexpr) : bool :=
+  match c with CPure e => ovf_expr e | CCall _ pos kw => existsb ovf_expr (pos ++ map snd kw) end.
+
 Fixpoint ovf_stmt (s : stmt) : bool :=
   match s with
-  | SAssign _ _ _ e | SCompound _ _ e | SPrint e => ovf_expr e
+  | SAssign _ _ _ c | SPrint c | SExpr c => ovf_c c
+  | SReturn None => false
+  | SReturn (Some c) => ovf_c c
+  | SCompound _ _ e => ovf_expr e
   | SIf c th el => ovf_expr c || ovf_block th || ovf_els el
   | SWhile c b => ovf_expr c || ovf_block b
   | SFor _ r b => existsb ovf_expr (rargs_list r) || ovf_block b
@@ -47,7 +53,7 @@ with ovf_els (el : els) : bool :=
   | EElse b => ovf_block b
   | EElif c b rest => ovf_expr c || ovf_block b || ovf_els rest
   end.
-Definition known_const_overflow (c : fcase) : bool := ovf_block (body c).
+Definition known_const_overflow (c : fcase) : bool := existsb (fun d => ovf_block (fbody d)) (cprog c).
 
 (* Known_C02: the function breaks a documented static rule that the checker does not enforce
    (static_fn c = Some k: k names the rule), or is in one of the two emission classes of C01, or
@@ -71,7 +77,9 @@ with strip_els (el : els) : els :=
   | EElse b => EElse (strip_block b)
   | EElif _ _ rest => strip_els rest
   end.
-Definition strip_fn (c : fcase) : fcase := {| params := params c; args := args c; body := strip_block (body c) |}.
+Definition strip_fn (c : fcase) : fcase :=
+  {| cprog := map (fun d => {| fname := fname d; fparams := fparams d; fret := fret d; fbody := strip_block (fbody d) |}) (cprog c);
+     centry := centry c; args := args c |}.
 (* the only rule violations are inside elif branches *)
 Definition only_in_elif (c : fcase) : bool :=
   match static_fn c, static_fn (strip_fn c) with Some _, None => true | _, _ => false end.
@@ -86,18 +94,38 @@ Definition c02_case_gen (ev : bool) (c : fcase) : bool * Z * Z * (bool * bool * 
    (known_grouping c, known_int_fallback c, known_const_overflow c, only_in_elif c)).
 Definition c02_case := c02_case_gen false.
 
-(* witnesses: functions the checker model accepts and that do not build *)
-Definition fn0 (l : list stmt) : fcase := {| params := []; args := []; body := blk l |}.
-Definition w_nested_reassign := fn0 [SAssign BInferred 1 None (EInt 1); SIf (EBool true) (blk [SAssign BInferred 1 None (EInt 2)]) ENone; SPrint (EVar 1)].
-Definition w_nested_type := fn0 [SAssign BMut 1 None (EInt 1); SIf (EBool true) (blk [SAssign BInferred 1 None (EBool true)]) ENone; SPrint (EVar 1)].
-Definition w_andor := fn0 [SPrint (EBin OpAnd (EInt 1) (EInt 2))].
-Definition w_arith := fn0 [SPrint (EBin OpAdd (EBool true) (EInt 1))].
-Definition w_rebind := fn0 [SAssign BMut 1 None (EInt 1); SAssign BLet 1 None (EInt 2); SAssign BInferred 1 None (EInt 3); SPrint (EVar 1)].
+(* witnesses: programs the checker model accepts and that do not build *)
+Definition fn0 (l : list stmt) : fcase :=
+  {| cprog := [{| fname := 0; fparams := []; fret := false; fbody := blk l |}]; centry := 0; args := [] |}.
+(* f1(v0, v1) -> int: return v0 - v1;  f2(v0) -> None: println(v0) *)
+Definition helpers : prog :=
+  [{| fname := 1; fparams := [0; 1]; fret := true; fbody := blk [SReturn (Some (CPure (EBin OpSub (EVar 0) (EVar 1))))] |};
+   {| fname := 2; fparams := [0]; fret := false; fbody := blk [SPrint (CPure (EVar 0))] |}].
+Definition fnh (l : list stmt) : fcase :=
+  {| cprog := helpers ++ [{| fname := 0; fparams := []; fret := false; fbody := blk l |}]; centry := 0; args := [] |}.
+Definition pe (e : expr) := SPrint (CPure e).
+Definition w_nested_reassign := fn0 [SAssign BInferred 1 None (CPure (EInt 1)); SIf (EBool true) (blk [SAssign BInferred 1 None (CPure (EInt 2))]) ENone; pe (EVar 1)].
+Definition w_nested_type := fn0 [SAssign BMut 1 None (CPure (EInt 1)); SIf (EBool true) (blk [SAssign BInferred 1 None (CPure (EBool true))]) ENone; pe (EVar 1)].
+Definition w_andor := fn0 [pe (EBin OpAnd (EInt 1) (EInt 2))].
+Definition w_arith := fn0 [pe (EBin OpAdd (EBool true) (EInt 1))].
+Definition w_rebind := fn0 [SAssign BMut 1 None (CPure (EInt 1)); SAssign BLet 1 None (CPure (EInt 2)); SAssign BInferred 1 None (CPure (EInt 3)); pe (EVar 1)].
 Definition w_break := fn0 [SBreak].
-Definition w_elif := fn0 [SIf (EBool false) (blk [SPass]) (EElif (EInt 1) (blk [SPrint (EVar 9)]) ENone)].
+Definition w_elif := fn0 [SIf (EBool false) (blk [SPass]) (EElif (EInt 1) (blk [pe (EVar 9)]) ENone)].
 Definition w_range := fn0 [SFor 1 (R1 (EBool true)) (blk [SPass])].
-Definition w_compound := fn0 [SAssign BMut 1 None (EBool true); SCompound CAdd 1 (EBool true)].
-Definition w_chain := fn0 [SPrint (EBin OpEq (EBin OpLt (EInt 1) (EInt 2)) (EBool true))].
-Definition witnesses : list (fcase * Z * Z) :=      (* (function, first rule broken, predicted verdict) *)
+Definition w_compound := fn0 [SAssign BMut 1 None (CPure (EBool true)); SCompound CAdd 1 (EBool true)].
+Definition w_chain := fn0 [pe (EBin OpEq (EBin OpLt (EInt 1) (EInt 2)) (EBool true))].
+Definition w_call_arity := fnh [SPrint (CCall 1 [EInt 1] [])].                       (* f1(1): one argument missing *)
+Definition w_call_argtype := fnh [SPrint (CCall 1 [EBool true; EInt 2] [])].         (* f1(true, 2) *)
+(* f1(1, v7=2) (no such parameter) also passes the checker; the real emitter drops the unbound keyword
+   argument (`f1(1)`, rustc arity error) while this model keeps written order for calls it cannot bind:
+   not used as a witness *)
+Definition w_unit_value := fnh [SPrint (CCall 2 [EInt 1] [])].                       (* println(f2(1)) *)
+Definition w_missing_return : fcase :=
+  {| cprog := [{| fname := 1; fparams := [0]; fret := true;
+                  fbody := blk [SIf (EBin OpGt (EVar 0) (EInt 0)) (blk [SReturn (Some (CPure (EInt 1)))]) ENone] |};
+               {| fname := 0; fparams := []; fret := false; fbody := blk [SPrint (CCall 1 [EInt 1] [])] |}];
+     centry := 0; args := [] |}.
+Definition witnesses : list (fcase * Z * Z) :=      (* (program, first rule broken, predicted verdict) *)
   [(w_nested_reassign, 8, 1); (w_nested_type, 9, 3); (w_andor, 7, 3); (w_arith, 5, 3); (w_rebind, 11, 3);
-   (w_break, 16, 3); (w_elif, 14, 3); (w_range, 15, 3); (w_compound, 12, 3); (w_chain, 0, 2)].
+   (w_break, 16, 3); (w_elif, 14, 3); (w_range, 15, 3); (w_compound, 12, 3); (w_chain, 0, 2);
+   (w_call_arity, 18, 3); (w_call_argtype, 19, 3); (w_unit_value, 20, 3); (w_missing_return, 22, 3)].
